@@ -31,6 +31,8 @@ type VC struct {
 	funSeen  map[string]bool
 	heapSort map[string]Sort
 	tags     map[string]int
+	tagTypes map[int]types.Type    // tag -> dynamic type
+	implOf   map[string]types.Type // impl predicate name -> interface type
 	strs     map[string]int
 }
 
@@ -278,7 +280,33 @@ func (vc *VC) globalAddr(key string) string {
 func (vc *VC) implPred(t types.Type) string {
 	name := "impl_" + typeKey(t)
 	vc.declFun(name, fmt.Sprintf("(declare-fun %s (Int) Bool)", name))
+	if vc.implOf == nil {
+		vc.implOf = map[string]types.Type{}
+	}
+	if _, ok := vc.implOf[name]; !ok {
+		vc.implOf[name] = t
+		for tag, dt := range vc.tagTypes {
+			vc.implFact(name, t, tag, dt)
+		}
+	}
 	return name
+}
+
+// implFact: Go's type system decides whether a dynamic type implements an
+// interface; the fact is stated for every (interface, tagged type) pair in use.
+func (vc *VC) implFact(name string, iface types.Type, tag int, dt types.Type) {
+	it, ok := iface.Underlying().(*types.Interface)
+	if !ok {
+		return
+	}
+	if _, isIface := dt.Underlying().(*types.Interface); isIface {
+		return // an interface type is never a dynamic type
+	}
+	fact := fmt.Sprintf("(assert (%s %d))", name, tag)
+	if !types.Implements(dt, it) {
+		fact = fmt.Sprintf("(assert (not (%s %d)))", name, tag)
+	}
+	vc.declFun(fmt.Sprintf("implfact_%s_%d", name, tag), fact)
 }
 
 func (vc *VC) needStr() {
@@ -303,6 +331,13 @@ func (vc *VC) tagOf(t types.Type) string {
 		}
 	}
 	vc.tags[k] = n
+	if vc.tagTypes == nil {
+		vc.tagTypes = map[int]types.Type{}
+	}
+	vc.tagTypes[n] = t
+	for name, it := range vc.implOf {
+		vc.implFact(name, it, n, t)
+	}
 	return fmt.Sprint(n)
 }
 
